@@ -292,8 +292,7 @@ class State(object):
         self.ctr = itertools.count()
         self.depth = 0
         self.notes = []
-        self.solver = z3.Solver()
-        self.solver.set('timeout', 5000)
+        self.solver = core.set_budget(z3.Solver(), 5000)
         self._nside = 0
         from .reduce import Reductions
         self.reductions = Reductions(self)
